@@ -32,6 +32,15 @@ CLAIMED = {
  "C07": ("GleamGen.tla derives for every declaration the exact set of tokens a rename must rewrite (RenameSet, theorem RenameComplete model-checked by TLC); every TLC-generated program replayed: real rename vs. that set, then re-analysis and rename-back",
          "for every declaration of every generated program the real rename to a fresh name must return exactly the specification's edit set as whole-identifier, non-overlapping edits (in both modules for library declarations); the edits are applied, the workspace re-analysed and the binding map (go-to-definition at every identifier) and diagnostics compared with the pre-state; renaming back must restore the original text byte for byte.",
          "generated programs cover locals of every binder form, parameters, functions, constants and library items through qualified/unqualified/aliased imports; record fields and labels are not generated yet", "4 C07, 3.10"),
+ "C10": ("TLA+ specification of workspace histories (Workspace.tla): TLC enumerates every workspace one damage step from small seeds and simulates multi-step histories; each workspace replayed into a fresh real analysis with every query at every token boundary",
+         "the specification predicts `answered` for every (workspace, file, offset, query kind); TLC enumerates all single-step damages (every position x every damage lexeme, truncation, duplication, file replacement/emptying/adding, import rewiring incl. self-imports and cycles) of small seeds exhaustively and samples multi-step histories from generated, hand-written and corpus seeds; the harness issues 15 query kinds at every token boundary and observes answered / panicked / timeout / aborted.",
+         "a query running longer than 30 s counts as non-termination; offsets are token boundaries plus some mid-token offsets", "4 C10, 3.7"),
+ "C11": ("Workspace.tla in history mode (the observable has no history argument); TLC-simulated histories replayed into one long-lived real AnalysisHost and compared step by step with fresh analyses",
+         "for TLC-simulated 8-step histories (edits, truncation, duplication, file replacement/emptying/adding, import rewiring, interleaved queries) one long-lived AnalysisHost receives the changes as the server builds them (file changes only; roots / package graph replaced); after every change step all 15 query kinds at every token boundary are compared between the long-lived host, a fresh host and a second fresh host queried in reverse order; a second configuration adds 140 filler modules so the 128-entry parse LRU must evict.",
+         "answer equality is on a canonical rendering (order of references, rename edits and completion items is not part of the answer); salsa's internals are observed, not modelled", "4 C11, 3.7"),
+ "C20": ("TLA+ monitor specification (Ranges.tla) evaluated by TLC on every distinct range recorded from the real analysis over the Workspace.tla workspaces",
+         "the sweep harness records every range any of 15 query kinds reports at every token boundary of every file of the C10 workspaces (incl. non-ASCII and broken ones) with the facts the monitor needs (file length, character-boundary bits, token tiling from the lexer, enclosing full range); TLC evaluates RangeOK on each record: inside the named file of the workspace, on character boundaries, focus inside full range, name-like results exactly one whole token.",
+         "boundary/token facts are computed by the harness with the repository's own lexer", "4 C20"),
 }
 NOT_YET = "check not built yet in this revision of /verif (work in progress; see DESIGN.md section 8)"
 
